@@ -1,6 +1,6 @@
 """C17 - see DESIGN.md §2 C17.  Deductive parts (contracts/) are added to this module as they are built; the bounded stand-in is checks/b17.py."""
 from vlib import env
-from checks.common import bounded_part, want, contract_sources, make_replay, t_oblig
+from checks.common import anchored, bounded_part, want, contract_sources, make_replay, t_oblig
 from pysym.harness import run_cases
 
 LEVEL = 'exploration'
@@ -19,6 +19,7 @@ def deductive(run):
 def main(run):
     env.setup()
     if want(run, 'P') or want(run, 'T'):
+      with anchored(run, 'C17/P'):
         deductive(run)
     bounded_part(run, 'C17')
     return FINISH
